@@ -47,8 +47,10 @@ def guarded_outcome(spec, model, fc=None):
     signal.setitimer(signal.ITIMER_REAL, 30)
     try:
         if fc is not None:
-            return cfgspec.outcome(spec, fc=fc)
-        return cfgspec.outcome(spec, model=model)
+            kind, res = cfgspec.outcome(spec, fc=fc)
+        else:
+            kind, res = cfgspec.outcome(spec, model=model)
+        return ('hang', None) if isinstance(res, Timeout) else (kind, res)
     except Timeout:
         return 'hang', None
     finally:
@@ -65,8 +67,27 @@ def expected_filenames(spec):
                                    'MultiClientSelector', 'MutexWrapped')]
 
 
-def check_valid(sm, spec):
+def deepen(sm, spec, depth):
+    """The same model `depth` namespace levels further down (namespaces D0 { D1 { ... } }): every
+    reference keeps its meaning, everything shifts uniformly.  'never hangs' includes models whose
+    cost must not explode with the nesting depth."""
+    ids = [f'D{i}' for i in range(depth)]
+    root = sm['model']['root']
+    for ident in reversed(ids):
+        root = [{'k': 'ns', 'ids': [ident], 'elems': root}]
+    sm2 = dict(sm, model=dict(sm['model'], root=root), enc=ids + list(sm['enc']))
+    spec2 = dict(spec, enc=ids + list(spec['enc']))
+    return sm2, spec2
+
+
+def check_valid(sm, spec, deep=False):
     # "valid inputs always succeed": also when the same parsed contents are built a second time
+    if deep:
+        # parsing is part of the budget here: one parse + build from the model under the watchdog
+        kind, res = guarded_outcome(spec, sm['model'])
+        if kind == 'hang':
+            raise Fail(f'parse + build of a valid model {len(spec["enc"]) - 1} namespace levels deep did '
+                       f'not finish within 30 s', 'valid:hang-deep')
     fc = cfgspec.parse_model(sm['model'])
     first = guarded_outcome(spec, None, fc=fc)
     kind, res = guarded_outcome(spec, None, fc=fc)
@@ -375,7 +396,9 @@ def check_case(case):
     """case = {sm, spec, fault: name | None, pick}."""
     sm, spec = case['sm'], case['spec']
     if case.get('fault') is None:
-        check_valid(sm, spec)
+        if case.get('deep'):
+            sm, spec = deepen(sm, spec, case['deep'])
+        check_valid(sm, spec, deep=bool(case.get('deep')))
         return
     faulted = apply_fault(sm, spec, case['fault'], case.get('pick', 0))
     if faulted is None:
@@ -403,8 +426,12 @@ def run(ctx):
                                 gen_cfg.model_and_spec(want_mixed=True, force=['many_ports'])),
                       st.integers(0, 1000))
     seen = set()
-    for base, pick in draw_cases(strat, n, ctx.seed):
+    for nb, (base, pick) in enumerate(draw_cases(strat, n, ctx.seed)):
         cases = [{'sm': base['sm'], 'spec': base['spec'], 'fault': None}]
+        if nb < (6 if ctx.quick else 60):
+            # the same valid input far down in nested namespaces
+            cases += [{'sm': base['sm'], 'spec': base['spec'], 'fault': None, 'deep': d}
+                      for d in ((24, 45) if nb % 2 else (33, 60))]
         cases += [{'sm': base['sm'], 'spec': base['spec'], 'fault': f, 'pick': pick} for f in FAULTS]
         for case in cases:
             applicable = case['fault'] is None or \
@@ -412,7 +439,8 @@ def run(ctx):
             if not applicable:
                 ctx.classes['inapplicable:' + case['fault']] += 1
                 continue
-            ctx.record(case, case['fault'] is not None, [case['fault'] or 'valid'])
+            ctx.record(case, case['fault'] is not None or bool(case.get('deep')),
+                       [case['fault'] or ('valid-deep' if case.get('deep') else 'valid')])
             try:
                 ctx._guard(check_case, case)  # pylint: disable=protected-access
             except Fail as f:
